@@ -3,7 +3,7 @@ use noodles_bgzf as bgzf;
 use noodles_core::Position;
 
 use super::Index;
-use crate::binning_index::index::reference_sequence::{bin::Chunk, parent_id, reg2bin};
+use crate::binning_index::index::reference_sequence::{Bin, bin::Chunk, parent_id, reg2bin};
 
 /// A binned index.
 pub type BinnedIndex = IndexMap<usize, bgzf::VirtualPosition>;
@@ -32,15 +32,39 @@ impl Index for BinnedIndex {
     }
 
     fn update(&mut self, min_shift: u8, depth: u8, start: Position, end: Position, chunk: Chunk) {
-        let bin_id = reg2bin(start, end, min_shift, depth);
+        // `CSIv1.pdf` (2020-07-21): `loffset` is the "(virtual) file offset of the first
+        // overlapping record". This is recorded for every bin, at every level, that the record
+        // overlaps, not only for the bin the record is assigned to.
+        //
+        // Records are added in coordinate order, so at each level, the bins that already have an
+        // offset form a prefix of the range of bins the record overlaps. Walk the range from its
+        // end, and stop at the first bin that has an offset.
+        let beg = usize::from(start) - 1;
+        let end = usize::from(end) - 1;
 
-        self.entry(bin_id)
-            .and_modify(|loffset| {
-                if chunk.start() < *loffset {
-                    *loffset = chunk.start();
+        // The ID of the first bin at level `l`.
+        let mut t = 0;
+
+        for l in 0..=usize::from(depth) {
+            // The number of bits for the size of a bin at level `l`.
+            let s = usize::from(min_shift) + 3 * (usize::from(depth) - l);
+
+            for id in ((t + (beg >> s))..=(t + (end >> s))).rev() {
+                if self.contains_key(&id) {
+                    break;
                 }
-            })
-            .or_insert(chunk.start());
+
+                self.insert(id, chunk.start());
+            }
+
+            t += 1 << (3 * l);
+        }
+    }
+
+    fn finish(&mut self, bins: &IndexMap<usize, Bin>) {
+        // Only bins with chunks are written to a file. Keep the same set in memory, so that an index
+        // is equal to, and prunes like, itself after being written and read.
+        self.retain(|id, _| bins.contains_key(id));
     }
 }
 
